@@ -7,6 +7,7 @@ NOTE = ("Trusted base: the gosmt executor's Go semantics (engine/*.go), z3 4.8.1
         "bounds are those of the harnesses (see DESIGN.md section of the property); inputs beyond them are outside the claim.")
 # id -> (claimed?, level text, design_ref, extra note / N/A reason)
 CHECKS = {
+ "C07": ("The real filepath/path Clean and Join code is executed symbolically on arbitrary client bytes (every byte value, every length up to the bound) through ReadPath, create-folder, rename, move/delete/alias, folder-upload item paths and the account manager; every path handed to a filesystem sink must lie inside the root.", "3/C07", "Bounds: path items and names up to 3 bytes each (quick) / 5 (thorough), up to two items; Mac-Roman decode modelled as identity (it cannot create or remove '/', '.' or NUL); symlinks already inside the root are outside the claim."),
  "C04": ("Path conditions of the real handleNewConnection over symbolic handshake bytes, login/password fields, account table and transaction ID: served iff handshake valid and credentials match; otherwise nothing executed, nothing queued to anyone, at most handshake reply + one error reply carrying the login's ID; registry restored.", "3/C04", "Account table, ban list, agreement and connection are harness stubs; bcrypt by contract; login/password fields up to 2 bytes each (all lengths), one appended request."),
  "C05": ("For every registered handler group the real handler runs with a fully symbolic 64-bit bitmap: effect => governing privilege, denial => privilege absent, denial is the only outcome with no side effect, entitled requests are carried out; at most one reply, to the requester.", "3/C05 + Appendix A", "Managers, file store, news store and message board are recording stubs; target kind (file/folder, category/bundle, exists/missing) symbolic; names from a finite menu."),
  "C12": ("Recipients of public/private chat lines, subject, join, leave and decline notices are decided for all read/send bitmaps of three clients and all message bytes up to 9000 (covers the 8192-byte cut), text compared with the reference format.", "3/C12", "Three clients, one private chat; real in-memory chat and client managers."),
